@@ -5,7 +5,7 @@ from .. import lean, proto, gen, util
 
 REQUIRED = ['Petl.C06.' + n for n in (
     'join_eq_nested_loop leftjoin_eq_nested_loop outerjoin_perm join_relational antijoin_eq_filter '
-    'lookupjoin_eq_first_partner join_keys_ascending').split()]
+    'lookupjoin_eq_first_partner none_key_matches_none').split()]
 
 KINDS = ['inner', 'left', 'right', 'outer', 'anti', 'lookup']
 FN = {'inner': 'join', 'left': 'leftjoin', 'right': 'rightjoin', 'outer': 'outerjoin', 'anti': 'antijoin', 'lookup': 'lookupjoin'}
@@ -143,7 +143,7 @@ def run(ctx):
                 'antijoin/lookupjoin (+ crossjoin) on the real code vs the model: header exact, data rows as key groups in order '
                 'with the multiset inside each group; exact row order recorded. Non-trivial: both sides non-empty.')
     ctx.assumptions += ['itertools.groupby groups adjacent equal keys; stack() squares rows up; sort as in C05']
-    if False: ctx.prove(["PetlProofs.Props.C06"], REQUIRED)
+    ctx.prove(["PetlProofs.Props.C06"], REQUIRED)
     rng = ctx.rng
     n = 2500 if ctx.thorough() else 350
     lines, metas = [], []
